@@ -113,7 +113,7 @@ let () =
        | cmd :: rest ->
          let (args, _) = parse_vals rest in
          Buffer.clear b;
-         (try print_val b (run (chars_of_string cmd) args)
+         (try print_val b (nv_run (chars_of_string cmd) args)
           with Stack_overflow -> (Buffer.clear b; Buffer.add_string b "!DriverStackOverflow"));
          print_string (Buffer.contents b); print_char '\n')
     done
